@@ -408,7 +408,8 @@ def method_of(I, v, name, node):
     if isinstance(v, PDict):
         return DictMethod(v, name)
     if isinstance(v, SymMap):
-        return MapMethod(v, name)
+        from . import dictmodel as DM
+        return DM.MapMethod(v, name)
     if isinstance(v, Sym):
         raise _oos('attribute %s of %r' % (name, v), node)
     raise _oos('attribute %s of %r' % (name, v), node)
@@ -581,6 +582,9 @@ def indexed(I, it, node):
     if isinstance(it, PDict):
         keys = list(it.d.keys())
         return IndexedSeq(len(keys), None, lambda I_, i: keys[i])
+    if isinstance(it, SymMap) or (isinstance(it, Obj) and '__map' in it.attrs):
+        from . import dictmodel as DM
+        return DM.iter_keys(I, DM.map_of(it))
     if isinstance(it, IterState):
         items = it.items[it.pos:]
         it.pos = len(it.items)
@@ -646,6 +650,21 @@ def unpack(I, v, n, node):
 
 def make_set(I, items, node):
     raise _oos('set construction', node)
+
+
+@model(set)
+def m_set(I, args, kwargs, node):
+    from . import dictmodel as DM
+    if args:
+        s = DM.as_key_set(args[0])
+        if s is not None:
+            return s
+    raise _oos('set() of %r' % (args[0] if args else None,), node)
+
+
+def make_super2(I, cls, inst):
+    inst_cls = inst.cls if isinstance(inst, (Obj, PList)) else (inst if isinstance(inst, type) else type(inst))
+    return SuperProxy(inst, inst_cls, cls)
 
 
 def make_super(I, fr, node):
@@ -738,6 +757,11 @@ def binop(I, op, a, b, node):
                 return I.call(raw, [x, y], {}, node)
     if isinstance(op, ast.Sub) and is_int(a) and is_int(b):
         return mk_int(lift(a) - lift(b))
+    if isinstance(op, ast.Sub) and isinstance(a, SymMap):
+        from . import dictmodel as DM
+        r = DM.set_difference(a, b)
+        if r is not None:
+            return r
     if isinstance(op, ast.Mult):
         if is_int(a) and is_int(b):
             return mk_int(lift(a) * lift(b))
@@ -903,8 +927,10 @@ def contains(I, container, x, node):
         return mk_bool(z3.Select(container.dom, lift(x)))
     if isinstance(container, Obj):
         m = I.class_attr(container.cls, '__contains__')
-        if m is not None:
+        if m is not None and isinstance(m, types.FunctionType):
             return I.call(BoundMethod(m, container), [x], {}, node)
+        if '__map' in container.attrs:
+            return mk_bool(z3.Select(container.attrs['__map'].dom, lift(x)))
     if is_concrete(container) and is_concrete(x):
         return x in container
     ext = getattr(I, 'models_ext', None)
@@ -969,14 +995,17 @@ def getitem(I, v, k, node):
             return v.d[k]
         raise _raise(KeyError, k)
     if isinstance(v, SymMap):
-        ke = lift(k)
-        if not I.decide(z3.Select(v.dom, ke)):
-            raise _raise(KeyError)
-        return wrap_elt(z3.Select(v.val, ke), v.vty)
+        from . import dictmodel as DM
+        return DM.m_getitem(I, v, k, node)
     if isinstance(v, Obj):
         if hasattr(v, 'tuple_items') and isinstance(k, int):
             return v.tuple_items[k]
         m = I.class_attr(v.cls, '__getitem__')
+        if m is not None and isinstance(m, types.FunctionType):
+            return I.call(BoundMethod(m, v), [k], {}, node)
+        if '__map' in v.attrs:
+            from . import dictmodel as DM
+            return DM.m_getitem(I, v.attrs['__map'], k, node)
         if m is not None:
             return I.call(BoundMethod(m, v), [k], {}, node)
     if is_concrete(v) and is_concrete(k):
@@ -1003,15 +1032,16 @@ def setitem(I, o, k, v, node):
             return
         raise _oos('list item assignment', node)
     if isinstance(o, SymMap):
-        ke = lift(k)
-        o.dom = z3.Store(o.dom, ke, z3.BoolVal(True))
-        o.val = z3.Store(o.val, ke, lift_as(v, o.vty, node))
-        return
+        from . import dictmodel as DM
+        return DM.m_setitem(I, o, k, v, node)
     if isinstance(o, Obj):
         m = I.class_attr(o.cls, '__setitem__')
-        if m is not None:
+        if m is not None and isinstance(m, types.FunctionType):
             I.call(BoundMethod(m, o), [k, v], {}, node)
             return
+        if '__map' in o.attrs:
+            from . import dictmodel as DM
+            return DM.m_setitem(I, o.attrs['__map'], k, v, node)
     raise _oos('item assignment on %r' % (o,), node)
 
 
@@ -1023,16 +1053,16 @@ def delitem(I, o, k, node):
         del o.d[k]
         return
     if isinstance(o, SymMap):
-        ke = lift(k)
-        if not I.decide(z3.Select(o.dom, ke)):
-            raise _raise(KeyError)
-        o.dom = z3.Store(o.dom, ke, z3.BoolVal(False))
-        return
+        from . import dictmodel as DM
+        return DM.m_delitem(I, o, k, node)
     if isinstance(o, Obj):
         m = I.class_attr(o.cls, '__delitem__')
-        if m is not None:
+        if m is not None and isinstance(m, types.FunctionType):
             I.call(BoundMethod(m, o), [k], {}, node)
             return
+        if '__map' in o.attrs:
+            from . import dictmodel as DM
+            return DM.m_delitem(I, o.attrs['__map'], k, node)
     raise _oos('del item on %r' % (o,), node)
 
 
@@ -1185,7 +1215,9 @@ def m_dict(I, args, kwargs, node):
         if isinstance(v, PDict):
             d.d.update(v.d)
         elif isinstance(v, SymMap):
-            return SymMap(v.dom, v.val, v.kty, v.vty)
+            return v.copy()
+        elif isinstance(v, Obj) and '__map' in v.attrs:
+            return v.attrs['__map'].copy()
         else:
             for it in concrete_items(I, v, node):
                 k, x = unpack(I, it, 2, node)
